@@ -925,11 +925,13 @@ def stream_repr(chk, i, rng):
         for part in ref:
             if part not in got or ty in ("list", "tuple"):
                 continue
-            if ty == "float32":
+            if ty == "float32" or (f32 and part in ("params", "path", "path-weights", "path-score")):
                 # a float32 affinity enters every gradient unconverted: its 1e-7 rounding is amplified without bound by Adam's normalised
                 # step at near-zero gradients and by discrete branches (ReLU masks, hier-prox index, LP vertex): only finiteness is required
-                if not finite(flat_numbers(got[part])):
-                    chk.fail(f"{name}:repr:{tag}:{part}-nonfinite", f"{part} has non-finite values on the {tag} representation ({fam}, {desc})", dict(replay, variant=tag), layer="L3")
+                # (same for the weights / histories trained or selected on float32 X: path() scores the raw float32 X) -- C17 is about
+                # finiteness: finite, same shapes, no exception, arguments unchanged
+                if not finite(flat_numbers(got[part])) or flat_numbers(got[part]).shape != flat_numbers(ref[part]).shape and part != "path":
+                    chk.fail(f"{name}:repr:{tag}:{part}-nonfinite", f"{part} has non-finite values or another shape on the {tag} representation ({fam}, {desc})", dict(replay, variant=tag), layer="L3")
                 continue
             sc = part in ("score", "path-score", "path")
             if not same_numbers(ref[part], got[part], tol=1e-5 if f32 else 1e-10, atol=(2e-3 if f32 else 1e-6) * slack if sc else 0.0):
